@@ -73,6 +73,18 @@ def run(W, cfg):
     W.ob_true('mask binary', bool(rnp.isin(qm, (0, 1)).all()))
     W.ob_true('mask integer typed', qm.dtype.kind in 'iu')
     W.ob_true('same number of segments', (qm.shape[0] if qm.ndim == 3 else 1) == cfg['nseg'])
+    if cfg['opd'] == 'array' and cfg['amp'] == 'array':
+        # the plane's OPD (then its amplitude) replaced and the plane rescaled again by the same factor: the new data are what is
+        # resampled (interpolation is linear in the data, so twice the OPD gives twice the rescaled OPD)
+        q_opd, q_amp = q.opd.copy(), q.amplitude.copy()
+        p.opd = O * 2
+        q2 = p.rescale(sv)
+        W.ob('OPD replaced, rescaled again by the same factor: the new OPD is resampled', q2.opd, q_opd * 2)
+        p.amplitude = A * 2
+        q3 = p.rescale(sv)
+        W.ob('amplitude replaced, rescaled again by the same factor: the new amplitude is resampled', q3.amplitude, q_amp * 2)
+        W.ob_true('every rescale returns a new plane', not W.same(q2, q) and not W.same(q3, q2))
+        p.opd, p.amplitude = O, A
     H = W.mod('helper')
     segs = [qm] if qm.ndim == 2 else list(qm)
     if all(m.any() for m in segs):
